@@ -167,6 +167,19 @@ CORPUS_TAIL = [
 ]
 
 
+# "overtake" sessions (deterministic in the quick tier): a workspace of three files so that a diagnostics batch has a tail;
+# the batch of the first notification is parked before its first / second / third publication (hold with `skip`) until the
+# task of the immediately following notification has ended (or its update_diagnostics / spawn has happened): on a server
+# whose tasks publish after giving up their snapshot the later batch overtakes the tail of the earlier one
+OVERTAKE_DISK = {"b.td": "class B : MissingB;\n", "c.td": "def dc : MissingC;\nclass C;\n"}
+OVERTAKE_STEPS = [{"open": "a.td", "text": 'include "b.td"\ninclude "c.td"\ndef da : MissingA;\n'},
+                  {"change": "a.td", "text": 'include "b.td"\ninclude "c.td"\nclass MissingA;\ndef da : MissingA;\n'}]
+OVERTAKE_HOLDS = [{"point": pt, "until": until, "max_ms": 400, "skip": skip, "count": 1}
+                  for until in ("task.end", "main.update_diagnostics", "main.spawn")
+                  for pt, skips in (("task.vfs_read.diagnostics", (0, 1, 2)), ("task.published_files.lock", (0,)), ("task.start", (0,)))
+                  for skip in skips]
+
+
 def tail_steps(h):
     """wait_idle after every notification except between the last two; returns (steps, index of the penultimate
     notification in the step list)"""
@@ -355,6 +368,7 @@ def run(ctx):
     n_hist = 160 if ctx.quick else 4000
     hists = [dict(h, mode="settled") for h in CORPUS] + [dict(h, mode="burst") for h in CORPUS]
     hists += [dict(h, mode="tail", tail_k=k) for h in CORPUS_TAIL for k in range(len(TAIL_HOLDS))]
+    hists += [{"disk": OVERTAKE_DISK, "steps": OVERTAKE_STEPS, "mode": "burst", "holds": [hd]} for hd in OVERTAKE_HOLDS]
     for i in range(n_hist):
         r = i % 4
         h = gen_history(rng, ctx.quick, requests=(r == 2))
